@@ -14,6 +14,7 @@ where all threads meet at a barrier, i.e. every thread is inside `__repr__` of t
 from __future__ import annotations
 
 import copy
+import functools
 import itertools
 import json
 import re
@@ -32,11 +33,14 @@ RULE = ("cases = heap (1..5 nodes quick / ..6 thorough: attrs instances of 1..3 
         "random edges, so self-references and cycles through containers and other instances are the norm) x per class "
         "(1..3 inheritance layers, per-field repr in {True, False, callable(tag, recursing or not)} x init x set/unset, "
         "nesting of the class statement in functions/classes, plain runtime subclass (optionally overriding __repr__ around super's), repr_ns, str=True on leaf or base, "
-        "plain base with own __str__) x cfg (attr.s/define/mutable/frozen, slots, defaults) x fresh/warm thread x a fault "
+        "plain base with own __str__) x cfg (attr.s/define/mutable/frozen, slots, defaults; ancestors local to the same scopes or "
+        "at module level; class-level history: nothing rendered before / an instance of every ancestor rendered first / the "
+        "runtime class first; repr callables with per-field, shared (`fmt`) or functools.wraps'd `__name__`) x fresh/warm thread x a fault "
         "(before/after rendering) in one callable x thread scenario (0, 2, 3 threads meeting at a barrier inside a callable). "
         "A structured block enumerates cycle shapes x field kinds x every callable fault position first. Non-trivial = "
         "the rendering contains a cycle marker, a fault, an unset field, a callable or a thread scenario; distinct = distinct JSON case")
 ASSUMPTIONS = [
+    "class-level history (which classes of the chain rendered an instance earlier) and the `__name__` of the repr callables are harness-only variation: the model and the property are independent of both; the history is applied when a class is built (cache key contains it) so a replay in a fresh process sees the same history",
     "threading.local gives every thread its own already_repring: runtime behaviour, observed through forced schedules, not proved",
     "CPython's own recursion guard for list/tuple/dict repr (Py_ReprEnter/Leave) and object.__str__ -> repr are modelled as small functions and diff-tested here",
     "the real thread schedule is forced only up to 'all N threads are inside repr(root), in a field's callable, at the same time' (barrier; a timeout is recorded, not alarmed); finer interleavings are covered by the theorem over all schedules of the model's atomic steps",
@@ -106,8 +110,15 @@ def atom(s):
     return int(s) if s.isdigit() and (s == "0" or not s.startswith("0")) else Tok(s)
 
 
-def mk_callable(tag, recurse):
-    """the fault mode is an attribute of the function object, set per case (classes are cached)"""
+def fmt(v):          # the function the "wraps" callables claim to be
+    return repr(v)
+
+
+def mk_callable(tag, recurse, name_mode="field"):
+    """the fault mode is an attribute of the function object, set per case (classes are cached).
+    `name_mode`: what the callable's `__name__` is -- "field": unique per field; "same": every callable of the
+    class is called `fmt` (closures of one factory); "wraps": functools.wraps wrappers of one function.  The
+    rendering always carries the field's own tag, so a field rendered by another field's callable shows."""
     def repr_cb(v):
         mid = getattr(TL, "mid", None)
         if mid is not None and not TL.waited:
@@ -125,7 +136,13 @@ def mk_callable(tag, recurse):
             _raise(tag)
         return s
 
-    repr_cb.__name__ = "repr_" + tag
+    if name_mode == "wraps":
+        functools.update_wrapper(repr_cb, fmt)
+    elif name_mode == "same":
+        repr_cb.__name__ = "fmt"
+        repr_cb.__qualname__ = "make_formatter.<locals>.fmt"
+    else:
+        repr_cb.__name__ = "repr_" + tag
     repr_cb.fault = "no"
     return repr_cb
 
@@ -157,7 +174,7 @@ def _ib(f, cfg, cbs):
         kw["repr"] = False
     else:
         c = r["call"]
-        kw["repr"] = cbs[f["name"]] = mk_callable(c["tag"], c["recurse"])
+        kw["repr"] = cbs[f["name"]] = mk_callable(c["tag"], c["recurse"], cfg.get("cbNames", "field"))
     if not f["init"]:
         kw["init"] = False
         if f["name"] in cfg.get("dflt", []):
@@ -169,20 +186,19 @@ def qualname_of(cls_spec):
     return "".join(s["name"] + (".<locals>." if s["fn"] else ".") for s in cls_spec["scopes"]) + cls_spec["name"]
 
 
-def _nested_source(scopes, name, decorated, field_names, ovr=False):
-    """source text defining class `name` inside `scopes`; returns (lines, expression reaching the class)"""
+def _nested_source(scopes, outer_stmts, inner_stmts, result):
+    """source text: `outer_stmts` at module level, `inner_stmts` inside `scopes`; a statement is
+    (decorator name | None, class name, base expression, body lines); `result` names the class to return"""
+    def stmt(st, pad):
+        deco, name, base, body = st
+        lines = [pad + "@" + deco] if deco else []
+        lines.append(pad + f"class {name}({base}):")
+        return lines + [pad + "    " + ln for ln in (body or ["pass"])]
+
     def rec(sc, ind):
         pad = "    " * ind
         if not sc:
-            lines = []
-            if decorated:
-                lines.append(pad + "@_deco")
-            lines.append(pad + f"class {name}(_base):")
-            body = [pad + f"    {fn} = _mk[{fn!r}]()" for fn in field_names] if decorated else []
-            if ovr:
-                body += [pad + "    def __repr__(self):", pad + "        return 'OVR<' + super().__repr__() + '>'"]
-            lines += body or [pad + "    pass"]
-            return lines, name
+            return [ln for st in inner_stmts for ln in stmt(st, pad)], result
         s = sc[0]
         inner, expr = rec(sc[1:], ind + 1)
         if s["fn"]:
@@ -190,7 +206,7 @@ def _nested_source(scopes, name, decorated, field_names, ovr=False):
         return [pad + f"class {s['name']}:"] + inner, f"{s['name']}.{expr}"
 
     lines, expr = rec(scopes, 0)
-    return lines + [f"_result = {expr}"]
+    return [ln for st in outer_stmts for ln in stmt(st, "")] + lines + [f"_result = {expr}"]
 
 
 _FAULT_RE = re.compile(r'"fault": "(?:pre|post)"')
@@ -238,26 +254,47 @@ def build_class(cs, occurrence=0):
                 return d(**kw)(c)
         return deco
 
-    base = PlainRoot if cs["plainStr"] else object
-    for i, layer in enumerate(layers[:-1]):
-        body = {f["name"]: _ib(f, cfg, cbs) for f in layer}
-        base = deco_for(i)(type(f"Base{i}", (base,), body))
-    leaf_fields = layers[-1] if layers else []
-    glob = {"_base": base, "_deco": deco_for(n - 1), "_mk": {f["name"]: (lambda f=f: _ib(f, cfg, cbs)) for f in leaf_fields},
-            "__name__": "c11_synthetic"}
+    # the whole chain is written as class statements: the ancestors either next to the runtime class (inside
+    # the same functions/classes, so they are local classes too) or at module level
+    glob = {"_root": PlainRoot if cs["plainStr"] else object, "__name__": "c11_synthetic"}
+    stmts, base = [], "_root"
+    attrs_names = [f"Base{i}" for i in range(n - 1)] + ["Leaf" if plain_sub else cs["name"]]
+    for i, layer in enumerate(layers):
+        glob[f"_deco{i}"] = deco_for(i)
+        glob[f"_mk{i}"] = {f["name"]: (lambda f=f: _ib(f, cfg, cbs)) for f in layer}
+        stmts.append((f"_deco{i}", attrs_names[i], base, [f"{f['name']} = _mk{i}[{f['name']!r}]()" for f in layer]))
+        base = attrs_names[i]
     if plain_sub:
-        body = {f["name"]: _ib(f, cfg, cbs) for f in leaf_fields}
-        leaf = deco_for(n - 1)(type("Leaf", (base,), body))
-        glob["_base"] = leaf
-        src = _nested_source(cs["scopes"], cs["name"], False, [], cs["ovr"])
+        body = ["def __repr__(self):", "    return 'OVR<' + super().__repr__() + '>'"] if cs["ovr"] else []
+        stmts.append((None, cs["name"], base, body))
+    if cfg.get("localBases", True):
+        src = _nested_source(cs["scopes"], [], stmts, cs["name"])
     else:
-        src = _nested_source(cs["scopes"], cs["name"], True, [f["name"] for f in leaf_fields])
+        src = _nested_source(cs["scopes"], stmts[:-1], stmts[-1:], cs["name"])
     exec(compile("\n".join(src), "<c11 class>", "exec"), glob)  # noqa: S102
     cls = glob["_result"]
     if cls.__qualname__ != qualname_of(cs):
         raise RuntimeError(f"harness: qualname {cls.__qualname__!r} != {qualname_of(cs)!r}")
+    _pre_history(cls, cfg.get("pre", "none"))
     _CLASS_CACHE[key] = (cls, cbs)
     return cls, cbs
+
+
+def _pre_history(cls, pre):
+    """class-level history: which classes of the chain have rendered an instance before the case starts.
+    Applied once, when the class is built (the cache key contains `pre`), so that every case that uses the class
+    -- and a replay in a fresh process -- sees the same history."""
+    if pre == "none":
+        return
+    chain = [k for k in reversed(cls.__mro__) if attr.has(k)]          # root first
+    if cls not in chain:
+        chain.append(cls)                                              # plain runtime subclass
+    order = chain if pre == "bases_first" else [chain[-1]] + chain[:-1]
+    for k in order:
+        try:
+            repr(k(**{a.name: None for a in attr.fields(k) if a.init}))
+        except Exception:  # noqa: BLE001, S110 -- the history must never fail the build
+            pass
 
 
 def all_fields(cs):
@@ -454,7 +491,8 @@ SCOPES = [
     [{"name": "Outer", "fn": False}, {"name": "meth", "fn": True}, {"name": "Inner", "fn": False}],
 ]
 CLS_NAMES = ["C", "D", "Node", "Pt"]
-BASE_CFG = {"api": "attr.s", "slots": None, "frozen": False, "plainSub": False, "strAt": 9, "dflt": [], "explicit_true": False}
+BASE_CFG = {"api": "attr.s", "slots": None, "frozen": False, "plainSub": False, "strAt": 9, "dflt": [], "explicit_true": False,
+            "pre": "none", "cbNames": "field", "localBases": True}
 
 
 def rand_cfg(rng, names):
@@ -466,6 +504,9 @@ def rand_cfg(rng, names):
         "strAt": rng.choice([0, 1, 9, 9]),
         "dflt": [n for n in names if rng.random() < 0.5],
         "explicit_true": rng.random() < 0.5,
+        "pre": rng.choice(["none", "none", "bases_first", "bases_first", "sub_first"]),
+        "cbNames": rng.choice(["field", "same", "same", "wraps"]),
+        "localBases": rng.random() < 0.7,
     }
 
 
@@ -610,8 +651,22 @@ def structured(rng):
             cs["ovr"] = plain_sub == "ovr"
             cs["cfg"]["strAt"] = rng.choice([0, 9])
             cs["cfg"]["slots"] = rng.choice([None, True])
-            heap = {"classes": [cs], "nodes": [{"inst": {"cls": 0, "vals": [["a", 0]]}}]}
-            yield mk_case(heap, 0, rng.random() < 0.5)
+            for pre, local in (("none", True), ("bases_first", True), ("sub_first", True), ("bases_first", False)):
+                if pre != "none" and nl == 1 and not plain_sub:
+                    continue          # a single class has no ancestor to render first
+                cs2 = copy.deepcopy(cs)
+                cs2["cfg"]["pre"], cs2["cfg"]["localBases"] = pre, local
+                heap = {"classes": [cs2], "nodes": [{"inst": {"cls": 0, "vals": [["a", 0]]}}]}
+                yield mk_case(heap, 0, rng.random() < 0.5)
+    # callables that share a __name__: own + own, inherited + own, three of them
+    for mode, nl, slots in itertools.product(("same", "wraps", "field"), (1, 2, 3), (None, True)):
+        fs = [{"name": n, "repr": {"call": {"tag": "R" + n, "recurse": rc, "fault": "no"}}, "init": True}
+              for n, rc in (("a", True), ("b", False), ("c", True))]
+        cs = _simple_class([], name="Rec")
+        cs["layers"] = [fs] if nl == 1 else [fs[:1], fs[1:]] if nl == 2 else [fs[:1], fs[1:2], fs[2:]]
+        cs["cfg"]["cbNames"], cs["cfg"]["slots"] = mode, slots
+        heap = {"classes": [cs], "nodes": [{"inst": {"cls": 0, "vals": [["a", 1], ["b", 1], ["c", 1]]}}, {"atom": {"s": "7"}}]}
+        yield mk_case(heap, 0, False)
 
 
 def gen_cases(tier, rng):
@@ -678,6 +733,11 @@ def dist(case, obs):
         "api": cfgs[0].get("api") if cfgs else None,
         "slots": cfgs[0].get("slots") if cfgs else None,
         "plainSub": any(c.get("plainSub") for c in cfgs),
+        "pre": cfgs[0].get("pre") if cfgs else None,
+        "cbNames": cfgs[0].get("cbNames") if cfgs else None,
+        "localBases": cfgs[0].get("localBases") if cfgs else None,
+        "same_named_callables": max([sum(1 for f in all_fields(c) if isinstance(f["repr"], dict)) for c in heap["classes"]
+                                     if c.get("cfg", {}).get("cbNames", "field") != "field"] or [0]),
         "scoped": any(c["scopes"] for c in heap["classes"]),
         "locals": any(s["fn"] for c in heap["classes"] for s in c["scopes"]),
         "repr_ns": any(c["reprNs"] is not None for c in heap["classes"]),
